@@ -55,15 +55,19 @@ def replaceList (at_ tilde : TS) : List Tok → TS
   | t :: ts => replaceTok at_ tilde t ++ replaceList at_ tilde ts
 end
 
-def srcIdent (k : Kind) : TS := if k.isFrom then [i "value"] else [i "self"]
+/-- instantiate the `n`-th `quote!` body of a translated function -/
+def skel (tmpls : List (List Gen.Tm)) (n : Nat) (env : List (String × TS)) : TS :=
+  Gen.Tm.instList env (tmpls.getD n [])
+
+def srcIdent (k : Kind) : TS := if k.isFrom then skel Gen.tmpl_quote_action 0 [] else skel Gen.tmpl_quote_action 1 []
 
 /-- the token list substituted for `~` -/
 def tildePath (ctx : ImplContext) (tildePostfix : Option TS) : TS :=
-  let post := tildePostfix.getD []
+  let env := [("ident", srcIdent ctx.kind), ("dst", ctx.dstTy), ("tilde_postfix", tildePostfix.getD [])]
   match ctx.implType with
-  | .struct => srcIdent ctx.kind ++ [dot] ++ post
-  | .enum => ctx.dstTy ++ cc ++ post
-  | .variant => post
+  | .struct => skel Gen.tmpl_quote_action 2 env
+  | .enum => skel Gen.tmpl_quote_action 3 env
+  | .variant => skel Gen.tmpl_quote_action 4 env
 
 /-- `quote_action` -/
 def quoteAction (action : TS) (tildePostfix : Option TS) (ctx : ImplContext) : TS :=
@@ -605,20 +609,22 @@ def enumInitBlock (input : Enum) (ctx : ImplContext) : E TS := do
 def structMainCodeBlock (input : Struct) (ctx : ImplContext) : E TS := do
   let init ← structInitBlock input ctx
   match ctx.kind.cls with
-  | .from_ => return ctx.dstTy ++ init
-  | .into => return (if ctx.structAttr.ty.namelessTuple || ctx.hasPostInit then [] else ctx.dstTy) ++ init
+  | .from_ => return skel Gen.tmpl_struct_main_code_block 0 [("dst", ctx.dstTy), ("struct_init_block", init)]
+  | .into =>
+    let dst := if ctx.structAttr.ty.namelessTuple || ctx.hasPostInit then [] else ctx.dstTy
+    return skel Gen.tmpl_struct_main_code_block 1 [("dst", dst), ("struct_init_block", init)]
   | .existing => return init
 
 /-- `enum_main_code_block` -/
 def enumMainCodeBlock (input : Enum) (ctx : ImplContext) : E TS := do
   let init ← enumInitBlock input ctx
   match ctx.kind.cls with
-  | .from_ => return [i "match", i "value"] ++ init
-  | .into => return [i "match", i "self"] ++ init
+  | .from_ => return skel Gen.tmpl_enum_main_code_block 0 [("enum_init_block", init)]
+  | .into => return skel Gen.tmpl_enum_main_code_block 1 [("enum_init_block", init)]
   | .existing => return init
 
 def quickReturnBlock (qr : TS) (ctx : ImplContext) : TS :=
-  if ctx.kind.isIntoExisting then [p '*', i "other", eq] ++ quoteAction qr none ctx ++ [semi]
+  if ctx.kind.isIntoExisting then skel Gen.tmpl_main_code_block 0 [("action", quoteAction qr none ctx)]
   else quoteAction qr none ctx
 
 /-- `main_code_block` -/
@@ -632,33 +638,31 @@ def mainCodeBlock (ctx : ImplContext) : E TS :=
 /-- `main_code_block_ok` -/
 def mainCodeBlockOk (ctx : ImplContext) : E TS :=
   match ctx.structAttr.quickReturn with
-  | some qr => .ok (quickReturnBlock qr ctx)
+  | some qr =>
+    .ok (if ctx.kind.isIntoExisting then skel Gen.tmpl_main_code_block_ok 0 [("action", quoteAction qr none ctx)] else quoteAction qr none ctx)
   | none => do
     let inner ← (match ctx.input with
       | .struct s => structMainCodeBlock s ctx
       | .enum e => enumMainCodeBlock e ctx)
-    if ctx.hasPostInit then return inner else return [i "Ok", paren inner]
+    if ctx.hasPostInit then return inner else return skel Gen.tmpl_main_code_block_ok 1 [("inner", inner)]
 
 /-- `struct_pre_init` -/
 def structPreInit (ctx : ImplContext) : Option TS :=
   ctx.structAttr.initData.map fun ds => ds.flatMap fun x =>
-    [i "let", i x.ident, eq] ++ quoteAction x.action none ctx ++ [semi]
+    skel Gen.tmpl_struct_pre_init 0 [("a", [i x.ident]), ("b", quoteAction x.action none ctx)]
 
-/-- `render_parent` -/
+/-- `render_parent`: the arms of the `(kind, fallible)` match select the translated `quote!` bodies in source order -/
 def renderParent (f : Field) (ctx : ImplContext) : E TS :=
-  let m := f.member.toTS
-  let selfM := [i "self", dot] ++ m
-  let refSelfM := [paren [p '&', paren selfM]]
-  let mutObj := [p '&', i "mut", i "obj"]
+  let env := [("member", f.member.toTS)]
   match ctx.kind, ctx.fallible with
-  | .ownedIntoExisting, false => .ok (selfM ++ [dot, i "into_existing", paren [i "other"], semi])
-  | .refIntoExisting, false => .ok (refSelfM ++ [dot, i "into_existing", paren [i "other"], semi])
-  | .ownedInto, false => .ok (selfM ++ [dot, i "into_existing", paren mutObj, semi])
-  | .refInto, false => .ok (refSelfM ++ [dot, i "into_existing", paren mutObj, semi])
-  | .ownedIntoExisting, true => .ok (selfM ++ [dot, i "try_into_existing", paren [i "other"], p '?', semi])
-  | .refIntoExisting, true => .ok (refSelfM ++ [dot, i "try_into_existing", paren [i "other"], p '?', semi])
-  | .ownedInto, true => .ok (selfM ++ [dot, i "try_into_existing", paren mutObj, p '?', semi])
-  | .refInto, true => .ok (refSelfM ++ [dot, i "try_into_existing", paren mutObj, p '?', semi])
+  | .ownedIntoExisting, false => .ok (skel Gen.tmpl_render_parent 0 env)
+  | .refIntoExisting, false => .ok (skel Gen.tmpl_render_parent 1 env)
+  | .ownedInto, false => .ok (skel Gen.tmpl_render_parent 2 env)
+  | .refInto, false => .ok (skel Gen.tmpl_render_parent 3 env)
+  | .ownedIntoExisting, true => .ok (skel Gen.tmpl_render_parent 4 env)
+  | .refIntoExisting, true => .ok (skel Gen.tmpl_render_parent 5 env)
+  | .ownedInto, true => .ok (skel Gen.tmpl_render_parent 6 env)
+  | .refInto, true => .ok (skel Gen.tmpl_render_parent 7 env)
   | _, _ => panicAt "expand.rs:render_parent:unreachable(5)"
 
 /-- `struct_post_init` -/
@@ -746,57 +750,41 @@ def getQuoteTraitParams (input : DataType) (ctx : ImplContext) : QuoteTraitParam
       | none => []
     r := if ctx.kind.isRef then (if refLts.isEmpty then [p '&'] else [p '&'] ++ lifetimeTS "o2o") else [] }
 
-def coreConvert (name : String) : TS := cc ++ [i "core"] ++ cc ++ [i "convert"] ++ cc ++ [i name]
-def coreResult : TS := cc ++ [i "core"] ++ cc ++ [i "result"] ++ cc ++ [i "Result"]
-def o2oTraits (name : String) : TS := [i "o2o"] ++ cc ++ [i "traits"] ++ cc ++ [i name]
-def arrow : TS := [j '-', p '>']
-
 def errTyPath (ctx : ImplContext) : E TS :=
   match ctx.structAttr.errTy with
   | some t => .ok t.path
   | none => panicAt "expand.rs:quote_try_*_trait:err_ty unwrap"
 
+/-- the hole environment shared by the six skeletons (`QuoteTraitParams` destructured) -/
+def QuoteTraitParams.env (q : QuoteTraitParams) : List (String × TS) :=
+  [("attr", q.attr), ("impl_attr", q.implAttr), ("inner_attr", q.innerAttr), ("dst", q.dst), ("src", q.src),
+   ("these_gens", q.theseGens), ("those_gens", q.thoseGens), ("impl_gens", q.implGens), ("where_clause", q.whereClause), ("r", q.r)]
+
 def quoteFromTrait (q : QuoteTraitParams) (preInit init : TS) : TS :=
-  q.implAttr ++ [i "impl"] ++ q.implGens ++ coreConvert "From" ++ [p '<'] ++ q.r ++ q.src ++ q.thoseGens ++ [p '>', i "for"] ++ q.dst ++ q.theseGens ++ q.whereClause ++
-  [brace (q.attr ++ [i "fn", i "from", paren ([i "value", colon] ++ q.r ++ q.src ++ q.thoseGens)] ++ arrow ++ q.dst ++ q.theseGens ++
-    [brace (q.innerAttr ++ preInit ++ init)])]
+  skel Gen.tmpl_quote_from_trait 0 (q.env ++ [("pre_init", preInit), ("init", init)])
 
 def quoteTryFromTrait (q : QuoteTraitParams) (errTy preInit init : TS) : TS :=
-  q.implAttr ++ [i "impl"] ++ q.implGens ++ coreConvert "TryFrom" ++ [p '<'] ++ q.r ++ q.src ++ q.thoseGens ++ [p '>', i "for"] ++ q.dst ++ q.theseGens ++ q.whereClause ++
-  [brace ([i "type", i "Error", eq] ++ errTy ++ [semi] ++ q.attr ++
-    [i "fn", i "try_from", paren ([i "value", colon] ++ q.r ++ q.src ++ q.thoseGens)] ++ arrow ++
-    coreResult ++ [p '<'] ++ q.dst ++ q.theseGens ++ [comma] ++ errTy ++ [p '>'] ++
-    [brace (q.innerAttr ++ preInit ++ init)])]
-
-def letMutObj (dst : TS) : TS :=
-  [i "let", i "mut", i "obj", colon] ++ dst ++ [eq, i "Default"] ++ cc ++ [i "default", paren [], semi]
+  skel Gen.tmpl_quote_try_from_trait 0 (q.env ++ [("err_ty", errTy), ("pre_init", preInit), ("init", init)])
 
 def quoteIntoTrait (q : QuoteTraitParams) (preInit init : TS) (postInit : Option TS) : TS :=
+  let env := q.env ++ [("pre_init", preInit), ("init", init), ("post_init", postInit.getD [])]
   let body := match postInit with
-    | some post => letMutObj q.dst ++ init ++ post ++ [i "obj"]
-    | none => preInit ++ init
-  q.implAttr ++ [i "impl"] ++ q.implGens ++ coreConvert "Into" ++ [p '<'] ++ q.dst ++ q.thoseGens ++ [p '>', i "for"] ++ q.r ++ q.src ++ q.theseGens ++ q.whereClause ++
-  [brace (q.attr ++ [i "fn", i "into", paren [i "self"]] ++ arrow ++ q.dst ++ q.thoseGens ++ [brace (q.innerAttr ++ body)])]
+    | some _ => skel Gen.tmpl_quote_into_trait 0 env
+    | none => skel Gen.tmpl_quote_into_trait 1 env
+  skel Gen.tmpl_quote_into_trait 2 (env ++ [("body", body)])
 
 def quoteTryIntoTrait (q : QuoteTraitParams) (errTy preInit init : TS) (postInit : Option TS) : TS :=
+  let env := q.env ++ [("err_ty", errTy), ("pre_init", preInit), ("init", init), ("post_init", postInit.getD [])]
   let body := match postInit with
-    | some post => letMutObj q.dst ++ init ++ post ++ [i "Ok", paren [i "obj"]]
-    | none => preInit ++ init
-  q.implAttr ++ [i "impl"] ++ q.implGens ++ coreConvert "TryInto" ++ [p '<'] ++ q.dst ++ q.thoseGens ++ [p '>', i "for"] ++ q.r ++ q.src ++ q.theseGens ++ q.whereClause ++
-  [brace ([i "type", i "Error", eq] ++ errTy ++ [semi] ++ q.attr ++ [i "fn", i "try_into", paren [i "self"]] ++ arrow ++
-    coreResult ++ [p '<'] ++ q.dst ++ q.thoseGens ++ [comma] ++ errTy ++ [p '>'] ++ [brace (q.innerAttr ++ body)])]
+    | some _ => skel Gen.tmpl_quote_try_into_trait 0 env
+    | none => skel Gen.tmpl_quote_try_into_trait 1 env
+  skel Gen.tmpl_quote_try_into_trait 2 (env ++ [("body", body)])
 
 def quoteIntoExistingTrait (q : QuoteTraitParams) (preInit init post : TS) : TS :=
-  q.implAttr ++ [i "impl"] ++ q.implGens ++ o2oTraits "IntoExisting" ++ [p '<'] ++ q.dst ++ q.thoseGens ++ [p '>', i "for"] ++ q.r ++ q.src ++ q.theseGens ++ q.whereClause ++
-  [brace (q.attr ++ [i "fn", i "into_existing", paren ([i "self", comma, i "other", colon, p '&', i "mut"] ++ q.dst ++ q.thoseGens)] ++
-    [brace (q.innerAttr ++ preInit ++ init ++ post)])]
+  skel Gen.tmpl_quote_into_existing_trait 0 (q.env ++ [("pre_init", preInit), ("init", init), ("post_init", post)])
 
 def quoteTryIntoExistingTrait (q : QuoteTraitParams) (errTy preInit init post : TS) : TS :=
-  q.implAttr ++ [i "impl"] ++ q.implGens ++ o2oTraits "TryIntoExisting" ++ [p '<'] ++ q.dst ++ q.thoseGens ++ [p '>', i "for"] ++ q.r ++ q.src ++ q.theseGens ++ q.whereClause ++
-  [brace ([i "type", i "Error", eq] ++ errTy ++ [semi] ++ q.attr ++
-    [i "fn", i "try_into_existing", paren ([i "self", comma, i "other", colon, p '&', i "mut"] ++ q.dst ++ q.thoseGens)] ++ arrow ++
-    coreResult ++ [p '<', paren [], comma] ++ errTy ++ [p '>'] ++
-    [brace (q.innerAttr ++ preInit ++ init ++ post ++ [i "Ok", paren [paren []]])])]
+  skel Gen.tmpl_quote_try_into_existing_trait 0 (q.env ++ [("err_ty", errTy), ("pre_init", preInit), ("init", init), ("post_init", post)])
 
 /-- `quote_trait` -/
 def quoteTrait (input : DataType) (ctx0 : ImplContext) : E TS := do
